@@ -218,13 +218,30 @@ pub fn run(ctx: &Ctx, rep: &mut Report, dir: &std::path::Path) {
                 canon = deep_name;
             }
             let dup = if rng.chance(1, 2) && !deep { canon.clone() } else { respell(&canon, &mut rng) };
-            if let Stmt::Build { outs, iouts, .. } = &mut am.files[pos[b2].0].1[pos[b2].1] {
+            // sometimes the second statement spells the path through a variable bound in its own block
+            // that shadows a file-level variable of the same name (paths see the block's bindings first)
+            let via_block_var = rng.chance(1, 4);
+            if via_block_var {
+                am.files[0].1.insert(0, Stmt::Var("dupv".into(), lit("elsewhere")));
+                for p in pos.iter_mut() {
+                    if p.0 == 0 {
+                        p.1 += 1;
+                    }
+                }
+            }
+            if let Stmt::Build { outs, iouts, binds, .. } = &mut am.files[pos[b2].0].1[pos[b2].1] {
+                let spelled = if via_block_var {
+                    binds.push(("dupv".into(), lit(&dup)));
+                    vec![Part::Ref("dupv".into())]
+                } else {
+                    lit(&dup)
+                };
                 if rng.chance(1, 2) {
                     let at = rng.below(outs.len() + 1);
-                    outs.insert(at, lit(&dup));
+                    outs.insert(at, spelled);
                 } else {
                     let at = rng.below(iouts.len() + 1);
-                    iouts.insert(at, lit(&dup));
+                    iouts.insert(at, spelled);
                 }
             }
             let exp = evaluate(&am, true);
